@@ -841,6 +841,24 @@ func (ev *Eval) pureCall(m *types.Func, recv *sval, args []SExpr) (sval, error) 
 	if sig.Results().Len() != 1 {
 		return sval{}, fmt.Errorf("pure call %s must have exactly one result", m.Name())
 	}
+	// callees marked `inline` are evaluated by executing their (loop-free) body in the spec state
+	if fn := g.ctx.prog.FuncValue(m); fn != nil && g.noName == 0 {
+		if ct := g.ctx.contracts[g.ctx.funcKey(fn)]; ct != nil && ct.Inline && len(fn.Blocks) > 0 {
+			for len(argVals) < len(fn.Params) {
+				// omitted variadic parameter: nil slice
+				argVals = append(argVals, g.zeroVal(fn.Params[len(argVals)].Type()))
+			}
+			g.muteObl++
+			host := g.newFrame(fn, nil)
+			host.depth = 1
+			st2 := ev.st.clone()
+			res := host.inline(fn, nil, st2, argVals)
+			g.muteObl--
+			if len(res) == 1 {
+				return sval{v: res[0]}, nil
+			}
+		}
+	}
 	key := m.FullName()
 	res := g.pureApp(key, argVals, sig.Results().At(0).Type(), ev.st)
 	return sval{v: res}, nil
